@@ -2,7 +2,7 @@
 from common_props import COMMON_TRUSTED
 
 CFG = {
-    "engines": [["fragck", 250, 3000], ["relayappend", 40, 500], ["ckown", 18, 150]],
+    "engines": [["fragck", 250, 3000], ["relayappend", 40, 500], ["ckown", 18, 150], ["c02typesweep", 1, 8]],
     "rule": "fragck/crc: random and boundary byte strings, split at arbitrary points, both polynomials, arbitrary initial values, "
             "against hash/crc32; fragck-writer: every fragment of writer scripts as in C01 against an independently computed "
             "running CRC; fragck-corrupt: for messages from the real writer, one byte of one fragment altered (argument byte or "
@@ -17,10 +17,23 @@ CFG = {
             "destination (relay-dest-conn-slow) while a second message of the same checksum type is being written (every frame reaching "
             "a destination is checked against an independent CRC), and a continuation frame held between the relay's item lookup and "
             "its checksum update while the call is finished by the destination's response / by its timer (forced schedule). "
+            "c02typesweep: per round, for every message length 2..6 fragments and every base type (none, crc32, crc32c) a conforming "
+            "message built without the library (arbitrary chunk layout, running CRC from hash/crc32) must read back complete; then "
+            "for EVERY fragment (the first included) and EVERY value 0..255 of the checksum type byte other than the base type that "
+            "byte is substituted, the checksum field kept / zeroed / dropped to the new type's size or recomputed for the new type "
+            "(about 16 000 substitutions per round), and the frames go through the real parseInboundFragment and fragmentingReader "
+            "with a random read pattern: some operation must fail, no fragment after the re-typed one (after fragment 1 when the "
+            "first is re-typed) may be taken, no byte beyond it delivered, the complete state never reached, doneReading(nil) never "
+            "called; substitutions by a known type (0..3) are also compared with the reader model (sub fragr). "
             "All cases non-trivial; distinct by input.",
     "trusted_base": COMMON_TRUSTED + [
         "modelled by hand (tied by correspondence): checksum objects (New/Add/Sum/Reset, null and hash kinds), running checksum in "
         "writer and reader; hash/crc32 re-modelled from its definition (bitwise, table-free) and compared with the library on every run",
+        "regenerated from source each run: Gen/GenC02TypeCk.c02ReaderTypeCk, the statements of recvAndParseNextFragment between the receipt "
+        "of a fragment and the chunk loop (receiver error, checksum creation from the first fragment's type byte, type comparison); hints: "
+        "r.checksum == nil / r.checksum.TypeCode() / r.curFragment.checksumType are the parameters has_ck / ck_type / ftype, "
+        "errMismatchedChecksumTypes is code 7 (go2v/c02typeck.go); the reader step of Model/Frag.v is proved equal to the step that "
+        "takes this decision from the generated definition (C02_reader_typecheck_generated)",
         "regenerated from source each run: Gen/GenCkSites.ck_sites, every New/Release/Add/Sum/Reset/pool Get/Put/noReleaseChecksum wrap/"
         "field store/argument hand-over of a pooled checksum with enclosing function, receiver and guard (go2v/cksites.go); the life cycles "
         "of Model/CkOwn.v (writer, reader, relay item) are modelled by hand and tied by that table and by the recorded traces",
@@ -33,5 +46,9 @@ CFG = {
                     "ArgWriter.Flush after the Close of the last argument (API misuse) is outside the life-cycle model",
                     "detection is claimed for an alteration confined to one byte (two coordinated alterations can collide in any 32-bit CRC)",
                     "bytes of chunk-length fields and flags are covered by correspondence (fragparse) only",
-                    "Farmhash (type 2) is unimplemented in the code (null checksum with a 4-byte field): every such message is rejected; no detection claimed"],
+                    "Farmhash (type 2) is unimplemented in the code (null checksum with a 4-byte field): every such message is rejected; no detection claimed",
+                    "C02_type_change_never_complete is stated for messages whose FIRST fragment has type none, crc32 or crc32c (a first fragment of type "
+                    "Farmhash is itself rejected by the checksum comparison on the wire: four checksum bytes against the null checksum's empty sum) and "
+                    "for scripts of reader operations that do not panic; the fragments are the parsed ones (type bytes >= 4 are rejected by "
+                    "parseInboundFragment before the reader sees them: C02_type_range, engine c02typesweep oracle)"],
 }
